@@ -367,6 +367,22 @@ def TableWriter.writeRow (env : Env) (t : TableWriter) (vt : VirtualTerm) (rowNu
 def TableWriter.writeFooter (t : TableWriter) (vt : VirtualTerm) (idx : Int) (line : Bytes) : Res VirtualTerm :=
   vt.writeForLine (t.activeRows + idx) line
 
+/-- one call on a `TableWriter`: `WriteRow(rowNum, cols...)` or `WriteFooter(idx, line)` -/
+inductive TableOp where
+  | row (rowNum : Int) (cols : List Bytes)
+  | footer (idx : Int) (line : Bytes)
+  deriving Repr
+
+def TableWriter.apply (env : Env) (st : TableWriter × VirtualTerm) : TableOp → Res (TableWriter × VirtualTerm)
+  | .row n cols => st.1.writeRow env st.2 n cols
+  | .footer idx line => do
+    let vt ← st.1.writeFooter st.2 idx line
+    pure (st.1, vt)
+
+/-- a sequence of calls, in order (every table-based renderer is such a sequence) -/
+def TableWriter.runOps (env : Env) (st : TableWriter × VirtualTerm) (ops : List TableOp) : Res (TableWriter × VirtualTerm) :=
+  ops.foldlM (TableWriter.apply env) st
+
 /-! ## Aggregated states (what the renderers read; the folds themselves belong to C07)
 
 A state is the set of present cells.  Keys are referred to by their index in the key lists of the
@@ -571,30 +587,42 @@ def DataTable.new (numCols numRows : Int) (rowTot colTot : Bool) (fmt : Fmt) : R
 def minColSlice {α : Type} (count : Int) (cols : List α) : Res (List α) :=
   if (cols.length : Int) < count then pure cols else sliceTo cols count
 
+/-- the header row of `DataTable.WriteTable` -/
+def DataTable.headerCells (env : Env) (d : DataTable) (ckeys : List Bytes) (cols : List Nat) : List Bytes :=
+  [[]] ++ cols.map (fun k => wrap env (cUnderline ++ cBrightBlue) (keyAt ckeys k)) ++
+    [if d.showRowTotals then wrap env (cUnderline ++ cBrightBlack) (ascii "Total") else []]
+
+/-- one data row: the row key, the formatted value of every displayed column, the formatted row sum -/
+def DataTable.rowCells (env : Env) (d : DataTable) (rkeys : List Bytes) (c : Cells) (cols : List Nat) (r : Nat) : List Bytes :=
+  [wrap env cYellow (keyAt rkeys r)] ++ cols.map (fun k => d.fmt.apply (c.value r k)) ++
+    [if d.showRowTotals then wrap env cBrightBlack (d.fmt.apply (c.rowSum r)) else []]
+
+/-- the totals row -/
+def DataTable.totalCells (env : Env) (d : DataTable) (c : Cells) (cols : List Nat) : List Bytes :=
+  [wrap env (cBrightBlack ++ cUnderline) (ascii "Total")] ++
+    cols.map (fun k => wrap env cBrightBlack (d.fmt.apply (c.colTotal k))) ++
+    [if d.showRowTotals then wrap env cBrightWhite (d.fmt.apply c.sum) else []]
+
+/-- the displayed columns: `minColSlice(s.numCols, counter.OrderedColumns(..))` -/
+def DataTable.shownCols (d : DataTable) (c : Cells) : Res (List Nat) := minColSlice d.numCols c.cols
+
+/-- the displayed rows: `for i := 0; i < len(rows) && i < s.numRows; i++` -/
+def DataTable.shownRows (d : DataTable) (c : Cells) : List Nat := c.rows.take d.numRows.toNat
+
+/-- the `WriteRow` calls of `DataTable.WriteTable`, in order: header at 0, data rows from 1, totals after them -/
+def DataTable.script (env : Env) (d : DataTable) (rkeys ckeys : List Bytes) (c : Cells) : Res (List TableOp) := do
+  let cols ← d.shownCols c
+  let rows := d.shownRows c
+  let rowOps := rows.zipIdx.map fun (ri : Nat × Nat) => TableOp.row ((ri.2 : Int) + 1) (d.rowCells env rkeys c cols ri.1)
+  let totals := if d.showColTotals then [TableOp.row ((rows.length : Int) + 1) (d.totalCells env c cols)] else []
+  pure ([TableOp.row 0 (d.headerCells env ckeys cols)] ++ rowOps ++ totals)
+
 /-- `DataTable.WriteTable` (the formatter ignores min/max for both modelled formatters) -/
 def DataTable.writeTable (env : Env) (d : DataTable) (vt : VirtualTerm) (rkeys ckeys : List Bytes) (c : Cells) :
     Res (DataTable × VirtualTerm) := do
-  let cols ← minColSlice d.numCols c.cols
-  let header : List Bytes :=
-    [[]] ++ cols.map (fun k => wrap env (cUnderline ++ cBrightBlue) (keyAt ckeys k)) ++
-      [if d.showRowTotals then wrap env (cUnderline ++ cBrightBlack) (ascii "Total") else []]
-  let (t, vt) ← d.table.writeRow env vt 0 header
-  let rows := c.rows
-  let shownRows := rows.take d.numRows.toNat
-  let (t, vt, line) ← shownRows.foldlM (fun (st : TableWriter × VirtualTerm × Int) r => do
-    let vals : List Bytes :=
-      [wrap env cYellow (keyAt rkeys r)] ++ cols.map (fun k => d.fmt.apply (c.value r k)) ++
-        [if d.showRowTotals then wrap env cBrightBlack (d.fmt.apply (c.rowSum r)) else []]
-    let (t, vt) ← st.1.writeRow env st.2.1 st.2.2 vals
-    pure (t, vt, st.2.2 + 1)) (t, vt, (1 : Int))
-  if d.showColTotals then
-    let vals : List Bytes :=
-      [wrap env (cBrightBlack ++ cUnderline) (ascii "Total")] ++
-        cols.map (fun k => wrap env cBrightBlack (d.fmt.apply (c.colTotal k))) ++
-        [if d.showRowTotals then wrap env cBrightWhite (d.fmt.apply c.sum) else []]
-    let (t, vt) ← t.writeRow env vt line vals
-    pure ({ d with table := t }, vt)
-  else pure ({ d with table := t }, vt)
+  let ops ← d.script env rkeys ckeys c
+  let (t, vt) ← TableWriter.runOps env (d.table, vt) ops
+  pure ({ d with table := t }, vt)
 
 /-! ## termrenderers/heatmap.go -/
 
@@ -707,34 +735,136 @@ def Spark.new (rows cols : Int) (scaler : Scaler) (fmt : Fmt) : Res Spark := do
 def sparkCells {α : Type} (A : Arith α) (env : Env) (k : Scaler) (vals : List Int) (min max : Int) : Res (List Bytes) :=
   vals.mapM fun v => sparkWrite A env (scale A k v min max)
 
-/-- `Spark.WriteTable(agg, rowSorter, colSorter)` (after 9780d5d) -/
+/-- the displayed columns: the LAST `colCount` ones -/
+def Spark.shownCols (s : Spark) (c : Cells) : Res (List Nat) :=
+  let all := c.cols
+  if (all.length : Int) > s.colCount then sliceFrom all (all.length - s.colCount) else pure all
+
+/-- the `First...Last` text above the sparklines (after c54b92c: visible widths): as wide as the
+sparkline when both names fit -/
+def sparkHeaderText (env : Env) (names : List Bytes) : Bytes :=
+  let first := names.head!
+  let last := names.getLast!
+  let dots : Int := (names.length : Int) - strLen env first - strLen env last
+  let dots := if dots < 0 then 0 else dots
+  first ++ writeRepeat 46 dots ++ last
+
+def Spark.headerCells (env : Env) (names : List Bytes) : List Bytes :=
+  [[], wrap env cUnderline (ascii "First"), sparkHeaderText env names, wrap env cUnderline (ascii "Last")]
+
+/-- one row: key, first value, one glyph per displayed column, last value -/
+def Spark.rowCells {α : Type} (A : Arith α) (env : Env) (s : Spark) (rkeys : List Bytes) (c : Cells) (colIdx : List Nat)
+    (minVal maxVal : Int) (r : Nat) : Res (List Bytes) := do
+  let cells ← sparkCells A env s.scaler (colIdx.map (c.value r)) minVal maxVal
+  let (vFirst, vLast) := match colIdx.head?, colIdx.getLast? with
+    | some f, some l => (s.fmt.apply (c.value r f), s.fmt.apply (c.value r l))
+    | _, _ => ([], [])
+  pure [wrap env cYellow (keyAt rkeys r), wrap env cBrightBlack vFirst, cells.flatten, wrap env cBrightBlack vLast]
+
+/-- the displayed rows -/
+def Spark.shownRows (s : Spark) (c : Cells) : List Nat := c.rows.take (mini c.rows.length s.rowCount).toNat
+
+/-- the calls of `Spark.WriteTable` on its table, in order, and the new footer offset -/
+def Spark.script {α : Type} (A : Arith α) (env : Env) (s : Spark) (rkeys ckeys : List Bytes) (c : Cells) : Res (List TableOp × Int) := do
+  let (minVal, maxVal) := c.minMax
+  let colIdx ← s.shownCols c
+  let names := colIdx.map (keyAt ckeys)
+  let hdr := if names.length > 0 then [TableOp.row 0 (Spark.headerCells env names)] else []
+  let rows := c.rows
+  let shown := s.shownRows c
+  let rowOps ← shown.zipIdx.mapM fun (ri : Nat × Nat) => do
+    let cells ← s.rowCells A env rkeys c colIdx minVal maxVal ri.1
+    pure (TableOp.row ((ri.2 : Int) + 1) cells)
+  let rowCount := mini rows.length s.rowCount
+  if (rows.length : Int) > rowCount then
+    pure (hdr ++ rowOps ++ [TableOp.footer 0 (wrap env cBrightBlack (moreNote ((rows.length : Int) - rowCount)))], 1)
+  else pure (hdr ++ rowOps, 0)
+
+/-- `Spark.WriteTable(agg, rowSorter, colSorter)` (after 9780d5d, c54b92c) -/
 def Spark.writeTable {α : Type} (A : Arith α) (env : Env) (s : Spark) (vt : VirtualTerm) (rkeys ckeys : List Bytes) (c : Cells) :
     Res (Spark × VirtualTerm) := do
-  let (minVal, maxVal) := c.minMax
-  let all := c.cols
-  let colIdx ← if (all.length : Int) > s.colCount then sliceFrom all (all.length - s.colCount) else pure all
-  let names := colIdx.map (keyAt ckeys)
-  let (t, vt) ← if names.length > 0 then do
-      let first := names.head!
-      let last := names.getLast!
-      let dots : Int := (names.length : Int) - first.length - last.length
-      let dots := if dots < 0 then 0 else dots
-      s.table.writeRow env vt 0 [[], wrap env cUnderline (ascii "First"), first ++ writeRepeat 46 dots ++ last, wrap env cUnderline (ascii "Last")]
-    else pure (s.table, vt)
-  let rows := c.rows
-  let rowCount := mini rows.length s.rowCount
-  let (t, vt) ← (rows.take rowCount.toNat).zipIdx.foldlM (fun (st : TableWriter × VirtualTerm) (ri : Nat × Nat) => do
-    let cells ← sparkCells A env s.scaler (colIdx.map (c.value ri.1)) minVal maxVal
-    let (vFirst, vLast) := match colIdx.head?, colIdx.getLast? with
-      | some f, some l => (s.fmt.apply (c.value ri.1 f), s.fmt.apply (c.value ri.1 l))
-      | _, _ => ([], [])
-    st.1.writeRow env st.2 (ri.2 + 1) [wrap env cYellow (keyAt rkeys ri.1), wrap env cBrightBlack vFirst, cells.flatten, wrap env cBrightBlack vLast]) (t, vt)
-  if (rows.length : Int) > rowCount then
-    let vt ← t.writeFooter vt 0 (wrap env cBrightBlack (moreNote (rows.length - rowCount)))
-    pure ({ s with table := t, footerOffset := 1 }, vt)
-  else pure ({ s with table := t, footerOffset := 0 }, vt)
+  let (ops, off) ← s.script A env rkeys ckeys c
+  let (t, vt) ← TableWriter.runOps env (s.table, vt) ops
+  pure ({ s with table := t, footerOffset := off }, vt)
 
 def Spark.writeFooter (s : Spark) (vt : VirtualTerm) (idx : Int) (line : Bytes) : Res VirtualTerm :=
   s.table.writeFooter vt (s.footerOffset + idx) line
+
+/-! ## cmd/histo.go, cmd/bargraph.go: how the commands drive the writers -/
+
+/-- `writeHistoOutput(writer, counter, count, sorter, atLeast)`; `items` are the top `count` items in
+sorted order with their counts, `total` is `counter.Total()` -/
+def Histo.writeOutput {α : Type} (A : Arith α) (env : Env) (h : Histo) (vt : VirtualTerm) (items : List (Bytes × Int))
+    (total atLeast : Int) : Res (Histo × VirtualTerm) := do
+  let (h, vt) ← h.updateTotal A env vt total
+  let (h, vt, _) ← items.foldlM (fun (s : Histo × VirtualTerm × Int) (it : Bytes × Int) =>
+    if it.2 ≥ atLeast then do
+      let (h, vt) ← s.1.writeForLine A env s.2.1 s.2.2 it.1 it.2
+      pure (h, vt, s.2.2 + 1)
+    else pure s) (h, vt, (0 : Int))
+  pure (h, vt)
+
+/-- the render callback of `bargraphFunction`: `SetKeys(counter.SubKeys()...)`, then one `WriteBar` per sorted row -/
+def BarGraph.writeOutput {α : Type} (A : Arith α) (env : Env) (g : BarGraph) (vt : VirtualTerm) (subKeys : List Bytes)
+    (rows : List (Bytes × List Int)) : Res (BarGraph × VirtualTerm) := do
+  let (g, vt) ← g.setKeys env vt subKeys
+  let (g, vt, _) ← rows.foldlM (fun (s : BarGraph × VirtualTerm × Int) (row : Bytes × List Int) => do
+    let (g, vt) ← s.1.writeBarTop A env s.2.1 s.2.2 row.1 row.2
+    pure (g, vt, s.2.2 + 1)) (g, vt, (0 : Int))
+  pure (g, vt)
+
+/-! ## cmd/reduce.go: the table output path (after 73473fc) -/
+
+/-- `strings.Split(s, sep)` for a one-byte separator -/
+def splitByte (sep : UInt8) : Bytes → List Bytes
+  | [] => [[]]
+  | b :: rest =>
+    if b = sep then [] :: splitByte sep rest
+    else match splitByte sep rest with
+      | [] => [[b]]
+      | h :: t => (b :: h) :: t
+
+/-- `GroupKey.Parts()`: no parts for the empty key, else split at `expressions.ArraySeparator` (NUL) -/
+def groupParts (key : Bytes) : List Bytes := if key = [] then [] else splitByte 0 key
+
+structure Reduce where
+  table : TableWriter
+  /-- `aggr.GroupCols()` -/
+  gnames : List Bytes
+  /-- `aggr.DataCols()` -/
+  dnames : List Bytes
+
+/-- `termrenderers.NewTable(vt, colCount, rowCount)` -/
+def Reduce.new (colCount rowCount : Int) (gnames dnames : List Bytes) : Res Reduce := do
+  let t ← TableWriter.new colCount rowCount
+  pure { table := t, gnames, dnames }
+
+/-- the header row: group columns, then data columns -/
+def Reduce.headerCells (env : Env) (r : Reduce) : List Bytes :=
+  r.gnames.map (wrap env (cUnderline ++ cBrightYellow)) ++ r.dnames.map (wrap env (cUnderline ++ cBrightBlue))
+
+/-- one data row: `rowBuf := make([]string, ColCount)`; the first `GroupColCount` parts of the key
+(73473fc: a key with more parts no longer indexes past the buffer), then `copy(rowBuf[ng:], data)` -/
+def Reduce.rowCells (env : Env) (r : Reduce) (key : Bytes) (data : List Bytes) : List Bytes :=
+  let ng := r.gnames.length
+  let nd := r.dnames.length
+  let parts := (groupParts key).take ng
+  parts.map (wrap env cBrightWhite) ++ List.replicate (ng - parts.length) [] ++
+    (data.take nd ++ List.replicate (nd - data.length) [])
+
+/-- the calls of one render callback: one row per group (sorted), then the two footers -/
+def Reduce.script (env : Env) (r : Reduce) (groups : List (Bytes × List Bytes)) (f0 f1 : Bytes) : List TableOp :=
+  groups.zipIdx.map (fun (gi : (Bytes × List Bytes) × Nat) => TableOp.row ((gi.2 : Int) + 1) (r.rowCells env gi.1.1 gi.1.2)) ++
+    [TableOp.footer 0 f0, TableOp.footer 1 f1]
+
+/-- "write header (will never shift)" -/
+def Reduce.start (env : Env) (r : Reduce) (vt : VirtualTerm) : Res (Reduce × VirtualTerm) := do
+  let (t, vt) ← TableWriter.runOps env (r.table, vt) [TableOp.row 0 (r.headerCells env)]
+  pure ({ r with table := t }, vt)
+
+def Reduce.render (env : Env) (r : Reduce) (vt : VirtualTerm) (groups : List (Bytes × List Bytes)) (f0 f1 : Bytes) :
+    Res (Reduce × VirtualTerm) := do
+  let (t, vt) ← TableWriter.runOps env (r.table, vt) (r.script env groups f0 f1)
+  pure ({ r with table := t }, vt)
 
 end Rare.C14
